@@ -62,7 +62,25 @@ SAFE_PATTERNS = [
     (r'[^A-Z]7-ELEVEN', ['#7-ELEVEN 3', 'A7-ELEVEN']),
     (r'CAF\S', ['CAFE ROMA', 'CAF ROMA', 'CAFÉ ROMA', 'Café Roma']),
     ('東京', ['東京 STORE 12', 'TOKYO STORE']),
+    # plain literals (no regex syntax at all) written in mixed / lower case, as users type merchant names
+    ('Trader Joe', ["TRADER JOE'S #552", 'Trader Joe s', 'trader joe', 'TRADER J']),
+    ('Lyft', ['LYFT *RIDE SUN', 'Lyft ride', 'lyft', 'LYF T']),
+    ('Whole Foods', ['WHOLE FOODS MKT 10', 'Whole Foods Market', 'WHOLEFOODS']),
+    ('netflix', ['NETFLIX.COM', 'Netflix.com', 'netflix', 'NETFLI']),
+    ('At&t', ['AT&T WIRELESS', 'at&t bill', 'ATT']),
+    ("Mcdonald's 12", ["MCDONALD'S 12 MAIN", "McDonald's 12", 'MCDONALDS 12']),
+    ('cvs/pharmacy', ['CVS/PHARMACY #1', 'Cvs/Pharmacy', 'CVS PHARMACY']),
+    ('Wal-Mart', ['WAL-MART #1', 'wal-mart', 'WALMART']),
 ]
+
+
+def case_variants(pat):
+    """Letter-case variants of a pattern that mean the same under IGNORECASE (only for patterns without
+    backslash escapes or (?...) groups, where changing a letter's case cannot change the syntax)."""
+    if '\\' in pat or '(?' in pat or not any(c.isalpha() and c.isascii() for c in pat):
+        return [pat]
+    return list(dict.fromkeys([pat, pat.lower(), pat.upper(), pat.title(),
+                               ''.join(c.lower() if i % 2 else c.upper() for i, c in enumerate(pat))]))
 # patterns whose quoting / legacy treatment is expected to go wrong (one hazard each)
 HAZ_BACKSLASH = [
     (r'\bUBER\b', ['UBER TRIP', 'SUPERUBER']), (r'A(\d)\1', ['A11', 'A12']), (r'X\\Y', ['X\\Y 1', 'XY']),
@@ -148,6 +166,8 @@ def gen_rule(rnd, today, hazard):
     """One CSV rule spec. `hazard` names the (single) known-defect feature deliberately put in, or None."""
     pool = {'backslash': HAZ_BACKSLASH, 'quote': HAZ_QUOTE, 'paren': HAZ_PAREN, 'case': HAZ_CASE}.get(hazard, SAFE_PATTERNS)
     pat, descs = rnd.choice(pool)
+    if hazard is None and rnd.random() < 0.35:
+        pat = rnd.choice(case_variants(pat))
     if hazard is None and rnd.random() < 0.06:
         pat, descs = '', ['ANY DESCRIPTION']           # modifiers only
     spec = {'pattern': pat, 'descs': list(descs), 'mods': gen_mods(rnd, today, hazard if hazard in ('aeq', 'rel') else None),
@@ -218,8 +238,8 @@ def gen_txns(rnd, specs, today, per_rule=4):
             dates = [datetime.date(2025, 3, 15), datetime.date(2024, 12, 31), datetime.date(2025, 7, 1)]
         for _ in range(per_rule):
             d = rnd.choice(spec['descs'])
-            if rnd.random() < 0.2:
-                d = rnd.choice([d.lower(), d.title(), 'POS ' + d])
+            if rnd.random() < 0.3:
+                d = rnd.choice([d.lower(), d.title(), d.upper(), 'POS ' + d])
             txns.append({'d': d, 'a': fmt_amount(rnd.choice(amts)), 'dt': rnd.choice(dates).isoformat()})
     seen, out = set(), []
     for t in txns:
@@ -252,6 +272,14 @@ def gen_cases(seed, n, today):
             spec = {'pattern': pat, 'descs': list(descs), 'mods': [], 'm': 'Merch', 'c': 'Cat', 's': 'Sub', 'tags': ['t1'],
                     'ncols': 5, 'hazard': hz}
             cases.append(make_case([spec], gen_txns(rnd, [spec], today, per_rule=3)))
+    for pat, descs in SAFE_PATTERNS:
+        vs = case_variants(pat)
+        if len(vs) == 1:
+            continue
+        specs = [{'pattern': v, 'descs': list(descs), 'mods': [], 'm': f'Merch{i}', 'c': 'Cat', 's': 'Sub', 'tags': [f't{i}'],
+                  'ncols': 5, 'hazard': None} for i, v in enumerate(vs)]
+        tx = [{'d': d2, 'a': '12.5', 'dt': '2025-03-15'} for d in descs[:3] for d2 in dict.fromkeys([d, d.upper(), d.lower()])]
+        cases.append(make_case(specs, tx))
     for hz in ('aeq', 'rel', 'blank', 'ws', 'none', 'tag', 'badmod'):
         for _ in range(3):
             spec = gen_rule(rnd, today, hz)
@@ -893,7 +921,7 @@ def main(tier):
         broken.append({'kind': 'hygiene', 'detail': res['hygiene']})
 
     today = datetime.date.today()
-    n = 220 if tier == 'quick' else 4000
+    n = 200 if tier == 'quick' else 4000
     wit = witness_cases()
     cases = wit + gen_cases(run.seed, n, today)
     out = run_files(cases, timeout=3000)
@@ -1020,8 +1048,8 @@ def main(tier):
     run.cov.update({
         'evaluations': n_pairs + stats.get('model_txn_evals', 0) + lit_n,
         'distinct_nontrivial': len(nontrivial),
-        'rule': 'CSV rule files of 1-6 rules (28 realistic regex patterns with classes, anchors, alternation, look-aheads, groups, '
-                'quantifiers; every modifier form amount > >= < <= = range, date = range relative, month, in combinations, with '
+        'rule': 'CSV rule files of 1-6 rules (37 realistic patterns: regexes with classes, anchors, alternation, look-aheads, groups, '
+                'quantifiers, and plain literals, each in upper/lower/title/mixed letter case; every modifier form amount > >= < <= = range, date = range relative, month, in combinations, with '
                 'optional inner spaces; pipe-separated tags; comment/blank lines; CSV-quoted cells) x transactions whose '
                 'descriptions hit/miss each pattern in upper/lower/title case, amounts on every modifier boundary +-0.01 and '
                 '+-1/128, dates on every range/month/relative boundary +-1 day; 40 % of files carry one known-hazard feature '
